@@ -150,6 +150,10 @@ for nm, txt in (("mid_removed", "the middle segment ends first (its removal make
         domain=f"template: three stacked disjoint segments, {txt}; operand tags, operation, box limits and all return codes of possible_intersection symbolic; callees replaced by recorders, BinaryHeap::pop scripted (delivers the template's events in sweep order), SplaySet replaced by a sorted-array model (its behaviour is C17)",
         claim="subdivide's loop: fields from the predecessor, neighbour checks (event,next) and (prev,event) on insertion and (prev,next) after removal, independent of operand tags; recomputation on return code 2; early exit rule; every popped event reported")
 
+reg("divide_ulp_half_f64", file="boolean/h_div.rs", props={"C16": "quick", "C13": "thorough", "C03": "thorough"}, lemma="L-DIV", inst="f64", unwind=5, est_s=400, cap_s=2400, mem_gb=24,
+    domain="one-ulp lattice around 1/2: x = 0.5 + i*2^-53, i < 3, y in 0..3 (neighbouring abscissas closer than f64::EPSILON)",
+    claim="divide_segment at the resolution limit below 1: same contract; left/right roles are swapped exactly for an exactly vertical remainder above the right endpoint")
+
 # --------------------------------------------------------------------------------------- L-PI
 PI_DIV = ("src/boolean/divide_segment.rs", "divide_segment", "crate::boolean::verif_kani::h_pi::divide_segment_model")
 reg("pi_none", file="boolean/h_pi.rs", props={"C16": "quick", "C13": "quick"}, lemma="L-PI", inst="f64", unwind=3, est_s=60, cap_s=1200, mem_gb=16,
@@ -253,6 +257,10 @@ for _nm in ("left_chain", "right_chain", "zigzag_lr", "zigzag_rl", "balanced"):
         claim=f"3-node tree of shape {_nm}: get / next / prev with an arbitrary key agree with the reference and leave the contents intact",
         **dict(SEQ, unwind=4, mem_gb=30, domain="concrete initial shape (all five 3-node shapes have a harness), query kind and key symbolic"))
 _seq("sp_i_iter", "quick", 100)
+for _nm in ("left_chain", "right_chain", "zigzag_lr", "zigzag_rl", "balanced"):
+    reg(f"sp_iter3_{_nm}", props={"C17": "quick" if _nm in ("zigzag_rl", "zigzag_lr") else "thorough"}, est_s=200, cap_s=1500,
+        claim=f"3-node tree of shape {_nm}: consuming iteration in any mix of directions yields exactly the reference entries in order; size_hint; exhaustion",
+        **dict(SEQ, unwind=4, domain="concrete initial shape (all five 3-node shapes have a harness), direction of every pull symbolic"))
 reg("sp_getmut_index", props={"C17": "quick"}, est_s=200, cap_s=1200, claim="get_mut, Index and IndexMut after two inserts with arbitrary keys agree with the reference", **SEQ)
 reg("sp_extend", props={"C17": "quick"}, est_s=300, cap_s=1500, claim="extend (incl. duplicate keys, later pairs replace earlier ones) against the reference; BST shape", **dict(SEQ, unwind=4))
 reg("sp_clear", props={"C17": "quick"}, est_s=60, cap_s=900, claim="clear() of each of the five 3-node shapes empties the map and leaves it usable", **dict(SEQ, unwind=8, domain="five concrete 3-node shapes"))
@@ -311,9 +319,9 @@ QUICK = {
     "C13": ["fill_edge_f64", "fill_two_edges_real_first", "fill_two_edges_collapsed_first", "fill_ids_2h_2h", "fill_ids_0_2", "divide_contract_f64", "pi_none", "pi_point", "sweep_protocol_mid_removed"],
     "C14": ["cf_base", "cf_step_same_nonvert", "cf_step_diff_nonvert", "cf_step_same_vert", "cf_step_diff_vert", "cf_twins_nonvert_pp0", "cf_twins_nonvert_pp1", "cf_twins_nonvert_pp2", "cf_twins_vert_pp0", "cf_twins_vert_pp1"],
     "C15": ["evord_ll_f64", "evord_lr_f64", "evord_rr_f64", "segord_oracle_f32_n3"],
-    "C16": ["int_classify_f32", "divide_contract_f64", "divide_ulp_f64", "pi_none", "pi_point", "pi_ov_v6s"],
+    "C16": ["int_classify_f32", "divide_contract_f64", "divide_ulp_f64", "divide_ulp_half_f64", "pi_none", "pi_point", "pi_ov_v6s"],
     "C17": ["sp_ii_get", "sp_ii_next", "sp_ii_prev", "sp_ii_minmax", "sp_ii_shape", "sp_i_iter", "sp_ir_get", "sp_ir_shape", "sp_getmut_index", "sp_extend", "sp_clear", "sp_set_insert_lookup", "sp_set_neighbours_remove",
-            "sp_refstab3_left_chain", "sp_refstab3_zigzag_lr",
+            "sp_refstab3_left_chain", "sp_refstab3_zigzag_lr", "sp_iter3_zigzag_rl", "sp_iter3_zigzag_lr",
             "sp_remove3_right_chain", "sp_remove3_zigzag_lr",
             ],
 }
